@@ -487,6 +487,23 @@ def expand(template_path, repo_src_dir, canary=False):
                 rs = receiver_start(mm, mt.start())
                 rw.note('R9', body[rs:mt.end()])
                 body = body[:rs] + 'array_iter(' + body[rs:mt.start()].rstrip() + ')' + body[mt.end():]
+        if kv.get('for_by_ref'):
+            # R12: `for PAT in X.by_ref() BODY`  =>  `loop { match X.next() { Some(PAT) => BODY None => { break; } } }`
+            # (the documented desugaring of a for loop over `&mut I`; `X.next()` is the iterator's own next, see R5)
+            while True:
+                mm = mask(body)
+                mt = re.search(r'\bfor\s+(\S+)\s+in\s+', mm)
+                if not mt:
+                    break
+                op = loop_body_open(mm, mt.start(), 'for')
+                it = body[mt.end():op].strip()
+                mb = re.match(r'(.*)\.\s*by_ref\s*\(\s*\)$', it, re.S)
+                if not mb:
+                    raise ExtractError('%s: for loop over %r is not of the form X.by_ref()' % (fname, it))
+                cl = match_close(mm, op)
+                rw.note('R12', body[mt.start():op].strip())
+                body = (body[:mt.start()] + 'loop { match ' + mb.group(1).strip() + '.next() { Some(' + body[mt.start(1):mt.end(1)] + ') => '
+                        + body[op:cl + 1] + ' None => { break; } } }' + body[cl + 1:])
         if kv.get('ptr_get'):
             # R11: RECV.get()  =>  self.at(RECV): the dereference of a list pointer names the cache whose heap it reads
             while True:
@@ -529,6 +546,7 @@ def expand(template_path, repo_src_dir, canary=False):
             edges = {k: sub_(v) for k, v in edges.items()}
         nl = len(find_loops(body))
         loops = {k: v for k, v in loops.items() if not (k in optional_loops and k > nl)}
+        edges = {k: v for k, v in edges.items() if not (k[1] in optional_loops and k[1] > nl)}
         body = apply_insertions(body, loops, [(a, t) for a, t in hints], fname, gen.notes, edges)
         sig = '    %s%s%s%s' % (vis, unsafe, head, params)
         if ret:
